@@ -1003,10 +1003,10 @@ static bool same_effects(const struct outcome *a, const struct outcome *b)
 void h_leaf(void)
 {
 	VERIF_LOAD_INPUTS();
+	VASSUME(IN.pc0 < L_N);
 	learn_ok = true;
 	leaf_learn();
 	VASSERT(labels_distinct(leaf_lbl, L_N), "C08 LEAF set-up: every blocking point has its own non-zero resume label and PT_INIT leaves 0");
-	VASSUME(IN.pc0 < L_N);
 	struct leaf R, S;
 	leaf_state(&R, IN.pc0, 0, IN.c_mode);
 	S = R;
@@ -1026,10 +1026,10 @@ void h_leaf(void)
 void h_t1(void)
 {
 	VERIF_LOAD_INPUTS();
+	VASSUME(IN.pc0 < T1_N);
 	learn_ok = true;
 	t1_learn();
 	VASSERT(labels_distinct(t1_lbl, T1_N), "C08 T1 set-up: every blocking point has its own non-zero resume label and PT_INIT leaves 0");
-	VASSUME(IN.pc0 < T1_N);
 	struct t1 R = { .pt = t1_lbl[IN.pc0], .pc = IN.pc0, .sel = IN.sel, .i = IN.i }, S = R;
 	struct outcome re, sp;
 	RUN(re, t1(&R));
@@ -1050,10 +1050,10 @@ void h_t1(void)
 void h_t2(void)
 {
 	VERIF_LOAD_INPUTS();
+	VASSUME(IN.pc0 < T2_N);
 	learn_ok = true;
 	t2_learn();
 	VASSERT(labels_distinct(t2_lbl, T2_N), "C08 T2 set-up: every blocking point has its own non-zero resume label and PT_INIT leaves 0");
-	VASSUME(IN.pc0 < T2_N);
 	struct t2 R = { .pt = t2_lbl[IN.pc0], .pc = IN.pc0, .n = IN.n, .i = IN.i, .j = IN.j }, S = R;
 	struct outcome re, sp;
 	RUN(re, t2(&R));
@@ -1084,12 +1084,12 @@ static void t_leaf_pre(uint8_t parent_at_spawn)
 void h_t3(void)
 {
 	VERIF_LOAD_INPUTS();
+	VASSUME(IN.pc0 < T3_N);
+	t_leaf_pre(IN.pc0 == T3_SP);
 	learn_ok = true;
 	leaf_learn();
 	t3_learn();
 	VASSERT(labels_distinct(t3_lbl, T3_N) && labels_distinct(leaf_lbl, L_N), "C08 T3 set-up: every blocking point has its own non-zero resume label and PT_INIT leaves 0");
-	VASSUME(IN.pc0 < T3_N);
-	t_leaf_pre(IN.pc0 == T3_SP);
 	struct t3 R = { .pt = t3_lbl[IN.pc0], .pc = IN.pc0, .i = IN.i }, S;
 	leaf_state(&R.ch, IN.pc1, IN.stale1, IN.c_mode);
 	S = R;
@@ -1115,12 +1115,12 @@ void h_t3(void)
 void h_t4(void)
 {
 	VERIF_LOAD_INPUTS();
+	VASSUME(IN.pc0 < T4_N);
+	t_leaf_pre(IN.pc0 == T4_SP);
 	learn_ok = true;
 	leaf_learn();
 	t4_learn();
 	VASSERT(labels_distinct(t4_lbl, T4_N) && labels_distinct(leaf_lbl, L_N), "C08 T4 set-up: every blocking point has its own non-zero resume label and PT_INIT leaves 0");
-	VASSUME(IN.pc0 < T4_N);
-	t_leaf_pre(IN.pc0 == T4_SP);
 	struct t4 R = { .pt = t4_lbl[IN.pc0], .pc = IN.pc0, .a = IN.a, .b = IN.b }, S;
 	leaf_state(&R.ch, IN.pc1, IN.stale1, IN.c_mode);
 	S = R;
@@ -1144,10 +1144,10 @@ void h_t4(void)
 void h_callee(void)
 {
 	VERIF_LOAD_INPUTS();
+	VASSUME(IN.pc0 < C_N);
 	learn_ok = true;
 	callee_learn();
 	VASSERT(labels_distinct(callee_lbl, C_N), "C08 CALLEE set-up: every blocking point has its own non-zero resume label and PT_INIT leaves 0");
-	VASSUME(IN.pc0 < C_N);
 	struct callee R = { .pt = callee_lbl[IN.pc0], .pc = IN.pc0, .mode = IN.c_mode, .i = IN.c_i, .k = IN.c_k }, S = R;
 	struct outcome re, sp;
 	RUN(re, callee(&R));
@@ -1165,10 +1165,10 @@ void h_callee(void)
 void h_t5(void)
 {
 	VERIF_LOAD_INPUTS();
+	VASSUME(IN.pc0 < T5_N);
 	learn_ok = true;
 	t5_learn();
 	VASSERT(labels_distinct(t5_lbl, T5_N), "C08 T5 set-up: every blocking point has its own non-zero resume label and PT_INIT leaves 0");
-	VASSUME(IN.pc0 < T5_N);
 	/* the callee is never active between invocations of the caller: its saved state is always stale */
 	struct t5 R = { .pt = t5_lbl[IN.pc0], .pc = IN.pc0, .i = IN.i,
 			.ch = { .pt = IN.stale1, .pc = PC_STALE, .mode = IN.c_mode, .i = IN.c_i, .k = IN.c_k } }, S = R;
@@ -1187,12 +1187,12 @@ void h_t5(void)
 void h_mid(void)
 {
 	VERIF_LOAD_INPUTS();
+	VASSUME(IN.pc0 < M_N);
+	t_leaf_pre(IN.pc0 == M_SP);
 	learn_ok = true;
 	leaf_learn();
 	mid_learn();
 	VASSERT(labels_distinct(mid_lbl, M_N) && labels_distinct(leaf_lbl, L_N), "C08 MID set-up: every blocking point has its own non-zero resume label and PT_INIT leaves 0");
-	VASSUME(IN.pc0 < M_N);
-	t_leaf_pre(IN.pc0 == M_SP);
 	struct mid R = { .pt = mid_lbl[IN.pc0], .pc = IN.pc0, .i = IN.m_i }, S;
 	leaf_state(&R.ch, IN.pc1, IN.stale1, IN.c_mode);
 	S = R;
@@ -1210,12 +1210,6 @@ void h_mid(void)
 void h_t6(void)
 {
 	VERIF_LOAD_INPUTS();
-	learn_ok = true;
-	leaf_learn();
-	mid_learn();
-	t6_learn();
-	VASSERT(labels_distinct(t6_lbl, T6_N) && labels_distinct(mid_lbl, M_N) && labels_distinct(leaf_lbl, L_N),
-		"C08 T6 set-up: every blocking point has its own non-zero resume label and PT_INIT leaves 0");
 	VASSUME(IN.pc0 < T6_N);
 	/* top in its spawn: mid at one of its points; mid in its spawn: leaf at one of its points; stale otherwise */
 	if (IN.pc0 == T6_SP)
@@ -1226,6 +1220,12 @@ void h_t6(void)
 		VASSUME(IN.pc2 < L_N);
 	else
 		VASSUME(IN.pc2 == PC_STALE);
+	learn_ok = true;
+	leaf_learn();
+	mid_learn();
+	t6_learn();
+	VASSERT(labels_distinct(t6_lbl, T6_N) && labels_distinct(mid_lbl, M_N) && labels_distinct(leaf_lbl, L_N),
+		"C08 T6 set-up: every blocking point has its own non-zero resume label and PT_INIT leaves 0");
 	struct t6 R = { .pt = t6_lbl[IN.pc0], .pc = IN.pc0 }, S;
 	R.m.pc = IN.pc1;
 	R.m.pt = IN.pc1 < M_N ? mid_lbl[IN.pc1] : IN.stale1;
@@ -1252,10 +1252,10 @@ void h_t6(void)
 void h_t7(void)
 {
 	VERIF_LOAD_INPUTS();
+	VASSUME(IN.pc0 < T7_N);
 	learn_ok = true;
 	t7_learn();
 	VASSERT(labels_distinct(t7_lbl, T7_N), "C08 T7 set-up: every blocking point has its own non-zero resume label and PT_INIT leaves 0");
-	VASSUME(IN.pc0 < T7_N);
 	struct t7 R, S;
 	memset(&R, 0, sizeof(R));
 	R.fibre.state = IN.f_state; /* the neighbours of priv in the descriptor are arbitrary */
